@@ -17,6 +17,14 @@ pub mod c07;
 
 pub mod io;
 
+/// What the harness needs to run the real multistream-select futures against a reference
+/// implementation over the C03 adapter's scripted duplex.
+pub mod c03x {
+    pub use crate::multistream_select::verif_c03::{
+        io_kind, lp_dial_task, lp_listen_task, run_pair, End, Task, TaskOut,
+    };
+}
+
 /// A component in a box, driven through the line protocol.
 pub trait VerifBox {
     /// Execute one operation and return its canonical observation.
